@@ -28,7 +28,7 @@ R0_PATTERNS = [
 ]
 
 _RULE = re.compile(r'rule\s+(\S+)\s+`([^`]*)`\s*=>\s*`([^`]*)`\s*(.*)$')
-_GHOST_OK = re.compile(r'^(proof\s*\{|let\s+ghost\b|let\s+tracked\b|assert\b|assume\b|invariant\b|invariant_except_break\b|ensures\b|requires\b|decreases\b|recommends\b|opens_invariants\b|no_unwind\b|//)')
+_GHOST_OK = re.compile(r'^(proof\s*\{|broadcast\s+use\b|let\s+ghost\b|let\s+tracked\b|assert\b|assume\b|invariant\b|invariant_except_break\b|ensures\b|requires\b|decreases\b|recommends\b|opens_invariants\b|no_unwind\b|//)')
 
 class Extract:
     def __init__(self, kind, name, impl, file, in_fn=None):
